@@ -543,6 +543,12 @@ def gen_op(r, ref, malformed, obj=False):
     if k in ('al', 'sl'):
         return (k, inl(), q8(r))
     if k in ('aq', 'sq'):
+        if ref.quad and r.random() < .25:
+            # an edit that leaves an interaction in the model with bias exactly 0 (the interaction still exists: it is
+            # listed by quadratic / adj / degree): a cancelling add, from either side, or an explicit set to 0
+            kk = r.choice(sorted(ref.quad, key=lambda s: sorted(map(lab, s))))
+            u, v = tuple(kk) if r.random() < .5 else tuple(kk)[::-1]
+            return (k, u, v, F(-ref.quad[kk]) if k == 'aq' else F(0))   # F(): the reference may hold an (exact) float
         u, v = inl(), inl()
         while v == u:
             v = anyl()
@@ -567,6 +573,14 @@ def gen_op(r, ref, malformed, obj=False):
     if k == 'fx':
         return (k, inl(), F(r.choice([-1, 0, 1, 1, 2, 3]), r.choice([1, 1, 2])))
     if k == 'ct':
+        # half of the contractions are of two variables that interact; an interaction whose bias an earlier edit
+        # cancelled to an explicit zero is preferred (state reached through history only)
+        if ref.quad and r.random() < .6:
+            ks = sorted(ref.quad, key=lambda s: sorted(map(lab, s)))
+            zs = [kk for kk in ks if ref.quad[kk] == 0]
+            kk = r.choice(zs if zs and r.random() < .7 else ks)
+            u, v = tuple(kk)
+            return (k, u, v) if r.random() < .5 else (k, v, u)
         return (k, inl(), inl())
     if k == 'fl':
         return (k, inl())
@@ -641,7 +655,18 @@ def line_of(via, op, ref):
     """protocol line for the Lean model; wrong-typed arguments become the `xx` (malformed) op"""
     k = op[0]
     if k in ('sci', 'nz'):
-        return None          # no model operation: the Lean model is re-loaded from the reference after the call
+        # `Bqm.vScaleIgnoring` / `Bqm.vNormalize` (DimodModel/BqmScaleIgn.lean): the ignored containers as lists
+        iv, ii, io = op[-5:-2]
+        try:
+            ivt = 'N' if iv is None else (','.join(_lab(x) for x in iv) or '-')
+            iit = 'N' if ii is None else (','.join(f'{_lab(a)}~{_lab(b)}' for a, b in ii) or '-')
+        except (TypeError, ValueError):
+            return None
+        if k == 'sci':
+            return f'{via} sci {rat(op[1])} {ivt} {iit} {int(bool(io))}'
+        par = lambda rr: rr if isinstance(rr, tuple) else (-abs(rr), abs(rr))
+        lr, qr = par(op[1]), par(op[2] if op[2] is not None else op[1])
+        return f'{via} nz {rat(lr[0])} {rat(lr[1])} {rat(qr[0])} {rat(qr[1])} {ivt} {iit} {int(bool(io))}'
     def body():
         if k in ('al', 'sl'):
             return f'{k} {olab(op[1])} {rat(op[2])}'
@@ -848,6 +873,7 @@ def apply_ref(P, op, selfref):
             if inv == 0:
                 return True
             sc = 1 / inv
+            P.invscalar = inv       # the code computes inv_scalar and then 1 / inv_scalar in floats: both have to be exact
         P.lin = {v: (x if v in ivs else x * sc) for v, x in P.lin.items()}
         P.quad = {kk: (x if kk in iis else x * sc) for kk, x in P.quad.items()}
         if not io:
@@ -969,7 +995,7 @@ def bqm_history(ctx, r, dt, nops, lines, expect, meta, malformed_rate, script=No
             new = before.copy()
         partial = (okx is not True) and not new.same(before)
         # precision guard: cut the history before an op whose exact result does not fit the dtype
-        if not all(fits(x, MANT[dt]) for x in new.values() + P.values() + [getattr(P, 'scalar', F(1))]):
+        if not all(fits(x, MANT[dt]) for x in new.values() + P.values() + [getattr(P, 'scalar', F(1)), getattr(P, 'invscalar', F(1))]):
             ctx.tick('cut_for_precision')
             break
         # ---- model line(s)
@@ -990,6 +1016,19 @@ def bqm_history(ctx, r, dt, nops, lines, expect, meta, malformed_rate, script=No
         except Exception as e:  # noqa
             exc = e
         ctx.tick(f'{k}:{via if via == "d" else "view"}' + (':raises' if exc is not None else ''))
+        if k == 'ct' and len(op) == 3 and op[1] != op[2]:
+            try:
+                kk0 = pkey(op[1], op[2])
+                ctx.tick('ct:' + ('no-interaction' if kk0 not in before.quad else
+                                  'zero-bias-interaction' if before.convert(tv).quad[kk0] == 0 else 'interaction'))
+            except TypeError:
+                pass
+        if k in ('fx', 'fl', 'rv') and len(op) >= 2 and op[1] is not None:
+            try:
+                if any(x == 0 for _, x in before.convert(tv).nbrs(op[1])):
+                    ctx.tick(f'{k}:has-zero-bias-neighbour')
+            except Exception:  # noqa
+                pass
         if exc is not None:
             ctx.tick('exc:' + type(exc).__name__)
         if k in ('aqd', 'ala') and via == 'd' and is_range(before.labels) and len(op[1]) > len(before.labels):
@@ -1158,6 +1197,11 @@ def run(ctx):
         exhaustive(ctx, r)
     from harness.props import c04_qm
     c04_qm.run(ctx)
+    # the op alphabet, checked against the source (harness/props/c04_alphabet.py)
+    from harness.props import c04_alphabet
+    bq = lambda code: any(k.split(':')[0] == code and k.split(':')[1:2] in (['d'], ['view']) for k in ctx.hist) or (code == 'sc' and any(k.startswith('sci:') for k in ctx.hist))
+    qq = lambda code: any(k == 'qm:' + code or k.startswith('qm:' + code + ':') for k in ctx.hist)
+    c04_alphabet.alphabet_check(ctx, {'BinaryQuadraticModel': bq, 'QuadraticModel': qq})
 
 
 def exhaustive(ctx, r):
